@@ -344,7 +344,7 @@ def wrap_monitor(text: str, ll: int) -> str | None:
     """The 80-column rule read off the written characters alone: inside a start tag an attribute follows on the same
     line iff the column reached (in characters) is <= ll and no break is forced (after the root's `id`); a line break
     inside a tag needs column > ll or the forced break, and is followed by the attribute indent (tag column + 4).
-    Only for Capella-shaped documents with ASCII tag names. Returns a description of the first violation."""
+    For Capella-shaped documents; a non-ASCII tag name puts the counter ahead by its continuation bytes until the first break in that tag. Returns a description of the first violation."""
     i, n, col = 0, len(text), 0
     seen_root = False
     while i < n:
@@ -368,6 +368,9 @@ def wrap_monitor(text: str, ll: int) -> str | None:
             j = i + 1
             while text[j] not in " \n/>":
                 j += 1
+            # the writer counts the tag in UTF-8 bytes: the counter is ahead of the column by the tag's continuation
+            # bytes until the first break inside this tag (Props/C01 stag_column_exact); 0 for ASCII names
+            extra = len(text[i + 1:j].encode("utf-8")) - (j - i - 1)
             col += j - i
             i = j
             prev_attr = None
@@ -380,15 +383,16 @@ def wrap_monitor(text: str, ll: int) -> str | None:
                     break
                 forced = is_root and prev_attr == "id"
                 if ch == " ":
-                    if col > ll:
-                        return f"an attribute follows on the same line although column {col} > {ll}: ...{text[max(0, i - 60):i + 30]!r}"
+                    if col + extra > ll:
+                        return f"an attribute follows on the same line although column {col}{f' (+{extra} tag bytes)' if extra else ''} > {ll}: ...{text[max(0, i - 60):i + 30]!r}"
                     if forced:
                         return f"no line break after the root's id: ...{text[max(0, i - 40):i + 30]!r}"
                     col += 1
                     i += 1
                 elif ch == "\n":
-                    if not (col > ll or forced):
-                        return f"line break inside a tag at column {col} <= {ll} without need: ...{text[max(0, i - 60):i + 30]!r}"
+                    if not (col + extra > ll or forced):
+                        return f"line break inside a tag at column {col}{f' (+{extra} tag bytes)' if extra else ''} <= {ll} without need: ...{text[max(0, i - 60):i + 30]!r}"
+                    extra = 0
                     j = i + 1
                     while text[j] == " ":
                         j += 1
@@ -591,7 +595,7 @@ class Cases:
                           f"a Capella-shaped tree ({label}) reads back differently after being written: "
                           + (f"comments {c[0] + c[2]!r} -> {a[0] + a[2]!r}" if what == "comment" else "element tree differs"), case)
         # the wrap rule, read off the characters
-        if all(ord(ch) < 128 for ch in doc["root"][0]):
+        if True:  # every tag name: wrap_monitor accounts for the byte surplus of non-ASCII names
             w = wrap_monitor(text, ll)
             if w:
                 self.out.find("exs.serialize|wrap-rule|" + ("missing-break" if "same line" in w or "no line break" in w else "needless-break" if "without need" in w else "indent"),
@@ -774,7 +778,7 @@ class Cases:
                         pass
             for _ in range(rng.randint(0, 4)):
                 root.set(rng.choice(names + ["id", "name"]), rstr(rng, MILD + ["\xe9"], 0, 30))
-            self.emit(root.getroottree(), rng.choice([20, 40, 60, 80, 80, MAXSIZE]), "nonascii:names", monitor=False)
+            self.emit(root.getroottree(), rng.choice([20, 40, 60, 80, 80, MAXSIZE]), "nonascii:names")
 
     def gen_subelems(self, pool, n: int):
         rng = self.ctx.rng
@@ -860,6 +864,10 @@ def run(ctx: Ctx) -> Outcome:
     cs.gen_synth(ctx.pick(800, 6000))
     cs.gen_subelems(pool, ctx.pick(300, 3000))
     cs.gen_nonascii_names(ctx.pick(250, 2500))
+    # round 5: the widened round-trip domain, comments/PIs inside elements, the start-tag column formula, characters
+    import props.xml_wide as xml_wide
+
+    xml_wide.generate(cs, pool)
 
     # ---- (c) _escape
     import inspect
@@ -1103,6 +1111,10 @@ def replay(ctx: Ctx, case: dict):
         for f in o.findings:
             return f.what
         return None
+    if case["kind"] in ("wide", "stag", "inner"):
+        import props.xml_wide as xml_wide
+
+        return xml_wide.replay_case(ctx, case)
     if case["kind"] == "tree":
         root = build_doc(etree, case["doc"])
         sib, ll = case["siblings"], case["ll"]
